@@ -144,7 +144,7 @@ def generate(rng, profile='engine'):
     """profile: 'engine' (C01-C03), 'eof' (C04)."""
     scn = {'family': 'engine', 'profile': profile}
     if profile == 'eof':
-        tr = rng.choice(['fd'] * 3 + ['pty'] * 3 + ['sock'] * 2 + ['popen'] * 2)
+        tr = rng.choice(['fd'] * 3 + ['pty'] * 3 + ['sock'] * 2 + ['popen'] * 2 + ['pxssh'])
     else:
         tr = rng.choice(['fd'] * 6 + ['pty'] * 2 + ['sock'] * 1 + ['popen'] * 1)
     scn['transport'] = tr
@@ -157,7 +157,7 @@ def generate(rng, profile='engine'):
     scn['timeout'] = rng.choice([0.001, 0.003, 0.02])
     if tr in ('fd', 'pty'):
         scn['use_poll'] = rng.random() < 0.3
-    if tr == 'pty':
+    if tr in ('pty', 'pxssh'):
         scn['eof_flavour'] = rng.choice(['eio', 'eio', 'empty'])
         if rng.random() < 0.3:
             scn['exit_gap_us'] = rng.randint(1, 20000)
@@ -200,7 +200,7 @@ def generate(rng, profile='engine'):
         peer.append(st)
     ends = rng.random() < (0.75 if profile == 'engine' else 0.85)
     if ends:
-        end = {'op': 'exit', 'code': rng.choice([0, 0, 1, 7])} if tr in ('pty', 'popen') else {'op': 'close'}
+        end = {'op': 'exit', 'code': rng.choice([0, 0, 1, 7])} if tr in ('pty', 'popen', 'pxssh') else {'op': 'close'}
         if tr == 'pty' and rng.random() < 0.2:
             end = {'op': 'close'}
         r = rng.random()
@@ -259,6 +259,9 @@ def generate(rng, profile='engine'):
         if api == 'expect' and len(op['pats']) == 1 and rng.random() < 0.5:
             op['single'] = True
         ops.append(op)
+    if profile == 'eof' and tr in ('pty', 'pxssh', 'fd', 'sock') and rng.random() < 0.15:
+        ops.append({'op': 'close'})
+        ops.append({'op': 'str'})
     scn['ops'] = ops
     # a call that waits for ever needs a stream that ends no later than that call
     first_none = None
@@ -549,6 +552,9 @@ def evaluate(r, clauses=None):
         if late_text:
             model.set_pending(model.pending + late_text)
         pend = buf
+    pls = getattr(r, 'pre_login_str', None)
+    if isinstance(pls, Exception):
+        V('C04.diagnostic', 'str() of a pxssh object before login raised %r' % (pls,))
     for o in r.ops:
         if o['op'] == 'str' and o['out'] != 'ret':
             V('C04.diagnostic', 'str(spawn) raised %r' % (o.get('exc'),))
